@@ -42,8 +42,10 @@ def strip_doc(body):
 class FnTranslator:
     """Translate one FunctionDef to Lean source."""
 
-    def __init__(self, fn, known_fns, effectful_fns):
+    def __init__(self, fn, known_fns, effectful_fns, module=None):
         self.fn = fn
+        self.module = module            # the module's AST: constant tuples and private helpers are looked up here
+        self.inlining = []              # helpers being inlined (no recursion)
         self.known = known_fns          # names of translated functions
         self.effectful = effectful_fns  # those returning Except
         self.loops = []                 # emitted auxiliary loop defs
@@ -84,13 +86,69 @@ class FnTranslator:
             return '(%s != 0)' % self.expr(e)
         raise TranslateError('unsupported condition: ' + ast.dump(e)[:120])
 
+    # ---------------- bounded loops and private helpers
+    def loop_values(self, it):
+        if isinstance(it, ast.Name) and self.module is not None:
+            it = find_assign_toplevel(self.module, it.id)
+        if isinstance(it, (ast.Tuple, ast.List)):
+            return int_list_literal(it)
+        if (isinstance(it, ast.Call) and isinstance(it.func, ast.Name) and it.func.id == 'range' and not it.keywords
+                and all(isinstance(a, ast.Constant) and isinstance(a.value, int) for a in it.args)):
+            vals = list(range(*[a.value for a in it.args]))
+            if len(vals) > 64 or any(v < 0 for v in vals):
+                raise TranslateError('range() too long or negative to unroll')
+            return vals
+        raise TranslateError('for loop over something that is not a literal / module constant tuple of ints')
+
+    def helper_of(self, call):
+        """the module-level private function called by `call` (to be inlined), or None"""
+        if not (isinstance(call, ast.Call) and isinstance(call.func, ast.Name) and self.module is not None):
+            return None
+        name = call.func.id
+        if name in self.known or not name.startswith('_') or call.keywords:
+            return None
+        try:
+            fn = find_fn(self.module, name)
+        except TranslateError:
+            return None
+        if name in self.inlining or len(self.inlining) > 3:
+            raise TranslateError('recursive helper ' + name)
+        return fn
+
+    def bind_args(self, helper, call):
+        params = [a.arg for a in helper.args.args]
+        if (len(params) != len(call.args) or helper.args.vararg or helper.args.kwarg or helper.args.defaults
+                or helper.args.kwonlyargs):
+            raise TranslateError('helper %s: unsupported signature / call' % helper.name)
+        out, bound = [], set()
+        for p_, a in zip(params, call.args):
+            free = {n.id for n in ast.walk(a) if isinstance(n, ast.Name)}
+            if free & (bound - ({p_} if isinstance(a, ast.Name) and a.id == p_ else set())):
+                raise TranslateError('helper %s: argument mentions a name shadowed by an earlier parameter' % helper.name)
+            if not (isinstance(a, ast.Name) and a.id == p_):
+                out.append(ast.Assign(targets=[ast.Name(id=p_, ctx=ast.Store())], value=a))
+            bound.add(p_)
+        self.inlining.append(helper.name)
+        return out
+
     # ---------------- statements
     def is_effectful(self):
-        for n in ast.walk(self.fn):
-            if isinstance(n, (ast.Raise, ast.While)):
-                return True
-            if isinstance(n, ast.Call) and isinstance(n.func, ast.Name) and n.func.id in self.effectful:
-                return True
+        todo, seen = [self.fn], set()
+        while todo:
+            f = todo.pop()
+            for n in ast.walk(f):
+                if isinstance(n, (ast.Raise, ast.While)):
+                    return True
+                if isinstance(n, ast.Call) and isinstance(n.func, ast.Name):
+                    if n.func.id in self.effectful:
+                        return True
+                    if (self.module is not None and n.func.id.startswith('_') and n.func.id not in self.known
+                            and n.func.id not in seen):
+                        seen.add(n.func.id)
+                        try:
+                            todo.append(find_fn(self.module, n.func.id))
+                        except TranslateError:
+                            pass
         return False
 
     def assigned_vars(self, stmts):
@@ -113,7 +171,7 @@ class FnTranslator:
                 raise TranslateError('function may fall off the end')
             return tail
         s, rest = stmts[0], stmts[1:]
-        if isinstance(s, ast.Return):
+        if isinstance(s, ast.Return) and self.helper_of(s.value) is None:
             # effectful call in return position is allowed
             v = s.value
             if (eff and isinstance(v, ast.Call) and isinstance(v.func, ast.Name)
@@ -143,6 +201,22 @@ class FnTranslator:
             a = self.block(s.body + rest, eff, tail)
             b = self.block(s.orelse + rest, eff, tail)
             return 'if %s then\n  %s\n  else\n  %s' % (self.cond(s.test), a, b)
+        if isinstance(s, ast.For) and not s.orelse and isinstance(s.target, ast.Name):
+            # `for v in <literal tuple / module constant tuple / range(k)>` over assignments: unrolled
+            vals = self.loop_values(s.iter)
+            for n in ast.walk(s):
+                if isinstance(n, (ast.Break, ast.Continue, ast.Return, ast.Raise, ast.While, ast.For)) and n is not s:
+                    raise TranslateError('for loop body outside the fragment (only assignments are unrolled)')
+            unrolled = []
+            for v in vals:
+                unrolled.append(ast.Assign(targets=[ast.Name(id=s.target.id, ctx=ast.Store())], value=ast.Constant(value=v)))
+                unrolled += s.body
+            return self.block(unrolled + rest, eff, tail)
+        call = s.value if isinstance(s, (ast.Return, ast.Assign)) else None
+        helper = self.helper_of(call)
+        if helper is not None and isinstance(s, ast.Return):
+            # `return _helper(args)`: the helper's body is inlined (extract-function refactorings keep the tie)
+            return self.block(self.bind_args(helper, call) + strip_doc(helper.body) + rest, eff, tail)
         if isinstance(s, ast.While) and not s.orelse:
             if not eff:
                 raise TranslateError('while in pure function')
@@ -209,6 +283,30 @@ def find_fn(tree, name, cls=None):
     return found[0]
 
 
+def find_assign_toplevel(tree, name):
+    """value of the module-level assignment `name = ...` (exactly one)"""
+    found = []
+    for n in tree.body:
+        if isinstance(n, ast.Assign) and len(n.targets) == 1 and isinstance(n.targets[0], ast.Name) and n.targets[0].id == name:
+            found.append(n.value)
+        if isinstance(n, ast.AnnAssign) and isinstance(n.target, ast.Name) and n.target.id == name and n.value is not None:
+            found.append(n.value)
+    if len(found) != 1:
+        raise TranslateError('module constant %s: %d assignments' % (name, len(found)))
+    # nothing in the module may rebind or mutate it elsewhere
+    for n in ast.walk(tree):
+        if isinstance(n, (ast.Global, ast.Nonlocal)) and name in n.names:
+            raise TranslateError('module constant %s is declared global somewhere' % name)
+        if isinstance(n, (ast.Assign, ast.AugAssign, ast.Delete)):
+            for t in (n.targets if isinstance(n, (ast.Assign, ast.Delete)) else [n.target]):
+                for m in ast.walk(t):
+                    if isinstance(m, ast.Name) and m.id == name and isinstance(m.ctx, (ast.Store, ast.Del)) and n not in tree.body:
+                        raise TranslateError('module constant %s is rebound inside a function' % name)
+                    if isinstance(m, ast.Subscript) and isinstance(m.value, ast.Name) and m.value.id == name:
+                        raise TranslateError('module constant %s is mutated' % name)
+    return found[0]
+
+
 def find_assign(tree, name):
     for n in ast.walk(tree):
         if isinstance(n, ast.Assign) and len(n.targets) == 1 and isinstance(n.targets[0], ast.Name) \
@@ -234,7 +332,7 @@ def gen_conversion(repo):
     for tree, name in order:
         fn = find_fn(tree, name)
         known.add(name)
-        tr = FnTranslator(fn, known, effectful)
+        tr = FnTranslator(fn, known, effectful, module=tree)
         src, eff = tr.emit()
         if eff:
             effectful.add(name)
